@@ -94,7 +94,7 @@ class JSXTag:
         if pieces[-1][:1] != pieces[-1][:1].upper():
             raise NotImplementedError("JSX tags must be start with a capital letter.")
 
-        if allowedProps:
+        if allowedProps is not None:
             for k in kwargs.keys():
                 if k not in allowedProps:
                     raise NotImplementedError(f"{k} is not a valid prop for {_name}")
